@@ -35,8 +35,9 @@ def state_strategy(tier):
         cluster = [{"name": "P0", "workers": [{"name": "W", "resources": [["CPU", 4], ["GPU", 4], ["MEM", 4]]}]}]
         n_prof = draw(st.integers(1, 3))
         profiles = [draw(specs.profile_for(cluster, f"pr{i}", feasible=True, max_runtime=6, zero_runtime=draw(st.integers(0, 5)) == 0)) for i in range(n_prof)]
-        jobs = draw(specs.job_graphs("G", n_prof, max_jobs=7, conditionals="heavy" if draw(st.booleans()) else True))
-        ops = draw(st.lists(st.tuples(st.sampled_from(["release", "schedule", "schedule_ahead", "start", "advance", "advance", "cancel"]),
+        shape = draw(st.sampled_from([None, None, "fork"]))  # a third of the graphs are forks (a task with several children)
+        jobs = draw(specs.job_graphs("G", n_prof, max_jobs=7, conditionals="heavy" if draw(st.booleans()) else True, force=shape))
+        ops = draw(st.lists(st.tuples(st.sampled_from(["release", "schedule", "schedule_ahead", "start", "advance", "advance", "cancel", "cancel_first_child"]),
                                       st.integers(0, 20), st.integers(0, 6)), min_size=1, max_size=25))
         return {"seed": draw(st.integers(0, 1000)), "profiles": profiles, "jobs": jobs, "release_time": draw(st.sampled_from([0, 0, 5])),
                 "ops": [list(o) for o in ops]}
@@ -208,11 +209,38 @@ def exec_state(case):
                 if V:
                     break
                 flush()
+            elif kind == "cancel_first_child":
+                # a running fork whose first-listed live child is dropped (deadline enforcement / drop_skipped_tasks do this to
+                # planned-ahead children): the other children must still be released when the fork completes
+                def live_kids(t):
+                    return sum(1 for k in tg.get_children(t) if k.state in (TaskState.VIRTUAL, TaskState.SCHEDULED))
+
+                forks = [t for t in tasks if not t.conditional and live_kids(t) >= 2 and (
+                    t.state == TaskState.RUNNING or (t.state in (TaskState.RELEASED, TaskState.SCHEDULED) and t.is_ready_to_run(tg)
+                                                      and not t.release_time.is_invalid() and simrun.us(t.release_time) <= now and t not in pending_release))]
+                if not forks:
+                    continue
+                res.counters["fork_child_cancelled_while_fork_runs"] = res.counters.get("fork_child_cancelled_while_fork_runs", 0) + 1
+                t = forks[i % len(forks)]
+                # bring the fork to RUNNING the way the simulator would (schedule now, start now)
+                if t.state == TaskState.RELEASED:
+                    strategy = t.available_execution_strategies[amt % len(t.available_execution_strategies)]
+                    t.schedule(T(now), Placement.create_task_placement(task=t, placement_time=T(now), worker_pool_id="wp", execution_strategy=strategy))
+                if t.state == TaskState.SCHEDULED:
+                    now = max(now, simrun.us(t.expected_start_time))
+                    t.start(T(now))
+                first = next(k for k in tg.get_children(t) if k.state in (TaskState.VIRTUAL, TaskState.SCHEDULED))
+                for c in tg.cancel(first, T(now)):
+                    if c in pending_release:
+                        pending_release.remove(c)
             elif kind == "cancel":
                 cand = [t for t in tasks if t.state in (TaskState.VIRTUAL, TaskState.RELEASED, TaskState.SCHEDULED)]
                 if not cand:
                     continue
-                t = cand[i % len(cand)]
+                # half of the time aim at a child of a task that is running: its siblings must still be released when that
+                # task completes
+                pref = [t for t in cand if any(p.state == TaskState.RUNNING for p in tg.get_parents(t))]
+                t = pref[i % len(pref)] if pref and amt % 2 == 0 else cand[i % len(cand)]
                 for c in tg.cancel(t, T(now)):
                     if c in pending_release:
                         pending_release.remove(c)
@@ -276,7 +304,7 @@ def exec_run(spec):
 
 
 CHECKS = [
-    Check("graph_states", case_timeout=60, timeout_is_violation=True, execute=exec_state, strategy=state_strategy, budget={"quick": 1200, "thorough": 40000}),
+    Check("graph_states", case_timeout=60, timeout_is_violation=True, execute=exec_state, strategy=state_strategy, budget={"quick": 3000, "thorough": 80000}),
     Check("greedy_run_offers", exec_run, strategy=run_worlds, budget={"quick": 1500, "thorough": 40000}),
     Check("greedy_run_offers_zero_runtime", exec_run, strategy=run_worlds_zero, budget={"quick": 500, "thorough": 10000}),
 ]
